@@ -85,6 +85,10 @@ def _subset(a, b) -> bool:
 
 
 def run(ctx):
+    if ctx.shard == 0:  # the repository's own pinned examples as one more workload (outcomes ignored)
+        from ..repotests import run_repo_tests
+
+        run_repo_tests(ctx, ("tags",))
     from dep_logic.specifiers import parse_version_specifier as P
     from dep_logic.tags import Platform
 
@@ -158,6 +162,11 @@ def run(ctx):
 
 
 def replay(ctx, case):
+    if isinstance(case, dict) and case.get("kind") == "repo-test":
+        from ..repotests import run_repo_tests
+
+        run_repo_tests(ctx, nodeid=case["nodeid"])
+        return
     from dep_logic.tags import Platform
 
     if case["kind"] == "compare":
